@@ -46,7 +46,7 @@ CLAIMS["C14"] = ("other", "affine abstract interpretation over MIR + who-may-cal
     "RMW left in memory (so removals never look like growth); capacity rounding is min(2^30, next_pow2(1.5c+1)) in both presize paths and "
     "every published threshold is 3/4 of the new length; resizes are initiated only by add_count (behind the hint test and count >= "
     "threshold) and try_presize (reserve, or an overfull bin in a table shorter than 64); initiation is guarded by len < 2^30; the table "
-    "pointer is only ever replaced by a fresh or doubled table; the constants are as stated; capacity 0 allocates nothing. Not decided: "
+    "pointer is only ever replaced by a fresh or doubled table; the constants are as stated; capacity 0 allocates nothing; reserve(additional) presizes for len() + additional. Not decided: "
     "'holds c well-distributed entries' (hash distribution) and power-of-two lengths (Q3, under C05).",
     "DESIGN.md §4 C14", TRUST + " x >> k is modelled as x/2^k (exact for the power-of-two lengths it is applied to).")
 
@@ -54,7 +54,7 @@ CLAIMS["C19"] = ("other", "panic-site reachability + delegation (who-may-call) r
     "Clauses: (V1) in the serde visitors no panic-family call is reachable after input has been pulled from the deserialiser, so a "
     "repeated key or element yields a value, not a panic; (V2) the visitors build the collection through exported, guard-checked functions "
     "with the new collection's own guard; (V3) the rayon impls only delegate to exported functions and sibling impls, with a per-worker guard "
-    "of the same map. Not decided: serialise/deserialise round-trip equality and 'same key set as sequential insertion' (run-time values).",
+    "of the same map; (V4) every entry pulled from the deserialiser reaches an insert before the next pull or the return. Not decided: serialise/deserialise round-trip equality and 'same key set as sequential insertion' (run-time values).",
     "DESIGN.md §4 C19", TRUST + " serde/rayon adaptor internals are outside the analysis.")
 
 CLAIMS["C01"] = ("other", "MIR path rules: lock-region dataflow, edge dominance, must-pass-through, delegation rule",
@@ -62,7 +62,7 @@ CLAIMS["C01"] = ("other", "MIR path rules: lock-region dataflow, edge dominance,
     "path of every writer: lock -> re-validate head by pointer identity -> only then mutate (11 lock regions, incl. no stale link reads "
     "carried into a section); bin contents written only under the bin lock, on private nodes, by the empty-bin CAS or in teardown (tree "
     "helpers lifted to call sites); both new bins published before the forwarding marker; writers that meet a forwarding marker retry in a "
-    "current table; set and pinned-reference facades are single delegations with guards paired to their collections; readers descend a tree bin only under the read lock; a node's value is touched / a node reported found only after its key compared equal; a bin is read at the index computed for that very table. Each clause is a "
+    "current table; set and pinned-reference facades are single delegations with guards paired to their collections; readers descend a tree bin only under the read lock and the write lock is taken only from a lock word without readers; a node's value is touched / a node reported found only after its key compared equal; a bin is read at the index computed for that very table. Each clause is a "
     "necessary condition of the property: a tree violating it admits a concrete lost/duplicated/misattributed update.",
     "DESIGN.md §4 C01", TRUST + " Lock regions are intraprocedural (guard locals); a lock handed across calls would be INCONCLUSIVE.")
 CLAIMS["C08"] = ("other", "MIR region rules (callback, read and write inside one validated lock region) + signature predicate",
@@ -80,7 +80,8 @@ CLAIMS["C18"] = ("other", "MIR unwind-edge analysis (cleanup paths, drop flags b
     "Whole structural content: every callback that runs while a bin lock is (or may be) held unwinds through the Drop of a lock guard on "
     "every cleanup path; no user code (directly or via callees) runs inside the manually released tree write-lock region; retain "
     "predicates run under no lock; no shared write or retire precedes the callback inside its critical section, so a panic leaves the "
-    "entry as found; no callback runs between an unlink and its count adjustment. Not decided: observable state of later operations on concrete histories.",
+    "entry as found; no callback runs between an unlink and its count adjustment; no lock acquisition propagates poisoning (a std lock whose "
+    "LockResult is unwrapped would make every later operation panic after one panicking callback). Not decided: observable state of later operations on concrete histories.",
     "DESIGN.md §4 C18", TRUST)
 
 CLAIMS["C16"] = ("proof", "signature (lifetime) rule over the type-checked API + compile-fail witnesses with compiling twins judged by rustc",
@@ -111,7 +112,7 @@ CLAIMS["C10"] = ("other", "MIR path rules (edge dominance, must-pass-through) + 
     "Clauses: exactly the last participant (won sc-1 CAS and sc-2 == stamp) can set the finishing flag; the publication block (clear "
     "next_table, swap table, retire old, store 3/4 threshold) is gated by it, ordered and complete; the next table is exactly twice as long; "
     "initiation is guarded by len < 2^30; the size_ctl bit layout holds for the evaluated constants; every won initiator/helper ticket leads "
-    "to transfer and transfer gives the ticket back on every exit; every joining site refuses to join on the same four atoms; stride claiming hands out disjoint adjacent ranges; an initiator's table belongs to the size_ctl generation of its ticket. Not "
+    "to transfer and transfer gives the ticket back on every exit; every joining site refuses to join on the same five atoms (sign, same generation stamp, full, finishing, no strides left); stride claiming makes progress (fresh positive index, strictly lower new value, index steps by one); the elected finisher sweeps the whole old table (i := len, decrement loop re-entered) before publishing; a bin is migrated only under its lock after re-validating the head; an initiator's table belongs to the size_ctl generation of its ticket. Not "
     "decided: 'every old bin migrated exactly once' and non-overlap of generations over all schedules (needs interleaving semantics).",
     "DESIGN.md §4 C10", TRUST)
 CLAIMS["C11"] = ("other", "lock-order graph over the resolved call graph + acquire/release pairing and park-protocol path rules",
@@ -135,7 +136,8 @@ CLAIMS["C04"] = ("other", "ownership typestate over MIR: must-consume rules + ES
     "retired with their old containers (tree bins via defer_drop_without_values, temporary nodes without values, drop constants); put's "
     "value is published exactly once or handed back exactly once, consistent with the returned PutResult variant, and is still owned on "
     "every retry; a removed/replaced value is retired exactly once (callee iff drop_value and no untreeify, else caller); teardown frees "
-    "nodes, values, tree bins, the table and the forwarding node. Not decided: drop counts over all concurrent histories, 'dropped after "
+    "nodes, values, tree bins, the table and the forwarding node; a private list of fresh tree nodes is handed to exactly one of TreeBin::new / "
+    "drop_tree_nodes on every path. Not decided: drop counts over all concurrent histories, 'dropped after "
     "the last guard' (that is seize's contract).",
     "DESIGN.md §4 C04", TRUST)
 
